@@ -37,6 +37,23 @@ for ax in "xyz":
         cmp(f"emc_gid_to_point_{ax}[{k}]", getattr(p3, f"emc_gid_to_point_{ax}")(ge, k), emc[f"points_{ax}"][:, k])
     gg, kk = np.meshgrid(ge, np.arange(8), indexing="ij")
     cmp(f"emc_gid_to_point_{ax}[grid]", getattr(p3, f"emc_gid_to_point_{ax}")(gg.ravel(), kk.ravel()), emc[f"points_{ax}"].ravel())
+# inputs written by their documented names: the call may be refused (a numba ufunc takes no keyword inputs), but a value that is
+# returned is the value for the NAMED wire / crystal / corner / z, whatever the order of the names
+kw_refused = 0
+def kwcall(name, fn, want, **kw):
+    global kw_refused
+    try: got = fn(**kw)
+    except TypeError: kw_refused += 1; return
+    cmp(name, got, want)
+zz = np.linspace(-110.0, 110.0, len(g)); kk8 = (ge % 8)
+pos_zx = p3.mdc_gid_z_to_x(g, zz); pos_zy = p3.mdc_gid_z_to_y(g, zz)
+kwcall("mdc_gid_z_to_x(gid=, z=)", p3.mdc_gid_z_to_x, pos_zx, gid=g, z=zz); kwcall("mdc_gid_z_to_x(z=, gid=)", p3.mdc_gid_z_to_x, pos_zx, z=zz, gid=g)
+kwcall("mdc_gid_z_to_y(z=, gid=)", p3.mdc_gid_z_to_y, pos_zy, z=zz, gid=g)
+for ax in "xyz":
+    fnp = getattr(p3, f"emc_gid_to_point_{ax}"); wantp = emc[f"points_{ax}"][ge, kk8]
+    kwcall(f"emc_gid_to_point_{ax}(gid=, point=)", fnp, wantp, gid=ge, point=kk8); kwcall(f"emc_gid_to_point_{ax}(point=, gid=)", fnp, wantp, point=kk8, gid=ge)
+for col in ("west_x", "east_y", "stereo"): kwcall(f"mdc_gid_to_{col}(gid=)", getattr(p3, f"mdc_gid_to_{col}"), mdc[col], gid=g)
+for col in ("center_x", "front_center_z"): kwcall(f"emc_gid_to_{col}(gid=)", getattr(p3, f"emc_gid_to_{col}"), emc[col], gid=ge)
 tab = p3.get_mdc_wire_position()
 for col in mdc: cmp(f"get_mdc_wire_position[{col}]", tab[col], mdc[col])
 tab = p3.get_emc_crystal_position()
